@@ -34,7 +34,7 @@ PROP = dict(
         dict(module="Cleanup", cfg="MC_Cleanup.cfg", tiers=("quick",)),
         dict(module="Cleanup", cfg="MC_Cleanup_thorough.cfg", tiers=("thorough",), timeout=2400)],
     trace=dict(module="CleanupTrace", cfg="CleanupTrace.cfg"),
-    chunk_lines=4000,
+    chunk_lines=4000, max_rejections=4,
     nontrivial=_nontrivial,
     min_nontrivial=20,
     rule="seeded histories on the real code: 'fmap' 25-55 FileOp calls over 5 names on base.NewLRUFileStore(cap 1-3) "
